@@ -160,9 +160,13 @@ where
 /// Returns everything `next()` returned up to and including `Terminate`, or an error when
 /// it panicked or did not terminate within the watchdog time.
 pub fn drive_single<T: ExchangeData>(n: u64, arrivals: Vec<Batch<T>>) -> Result<Vec<E<T>>, String> {
+    // the upstream block id rotates over 0 (the job's first block: its first replica has the
+    // default coordinate), 1 and 3
+    static CALLS: std::sync::atomic::AtomicU64 = std::sync::atomic::AtomicU64::new(0);
+    let prev = [0u64, 1, 3][(CALLS.fetch_add(1, std::sync::atomic::Ordering::Relaxed) % 3) as usize];
     let mut net = Net::new(5);
-    let senders = net.add_prev::<T>(1, n);
-    let mut start = verif::start_single::<T>(1);
+    let senders = net.add_prev::<T>(prev, n);
+    let mut start = verif::start_single::<T>(prev);
     start.setup(&mut net.metadata(BatchMode::fixed(1024)));
     drive1(start, net, senders, arrivals)
 }
